@@ -86,7 +86,7 @@ def steps_strategy(n, nfut, depth, emits, max_steps=5, futures=True, combinators
 
 @st.composite
 def program_strategy(draw, tier="quick", procs=True, futures=True, combinators=True, cancels=True,
-                     hooks=True, max_entities=5, past=True, jitter=True, heavy=False):
+                     hooks=True, max_entities=5, past=True, jitter=True, heavy=False, stash=False):
     n = draw(st.integers(1, max_entities))
     nfut = draw(st.integers(2 if heavy else 0, 4)) if (futures and procs) else 0
     dts = (0, 0, 0, 1, 1, 2, 3, -1, -2) if past else (0, 0, 0, 1, 1, 2, 3)
@@ -97,6 +97,9 @@ def program_strategy(draw, tier="quick", procs=True, futures=True, combinators=T
         "resolve": st.lists(st.tuples(st.integers(0, max(0, nfut - 1)), VALS).map(list),
                             max_size=2 if nfut else 0),
         "cancel": st.lists(st.integers(0, 2), max_size=1 if cancels else 0),
+        # stash: keep the received Event object (as a queue keeps a payload); flush: re-emit every held object, re-stamped to now.
+        # Only understood by RealRun (not by the reference interpreter), so only metamorphic checks (C04) switch it on.
+        **({"stash": st.sampled_from([False, False, False, True]), "flush": st.sampled_from([False, False, False, True])} if stash else {}),
     })
     if procs:
         hk = emit_strategy(n, False, dts, jitter, 0) if hooks else None
@@ -161,6 +164,7 @@ class RealRun:
         nfut = prog["nfut"]
         self.futs = [SimFuture() for _ in range(nfut)]
         self.waited = set()
+        self.stash = {}
         self.handles = {}
         self.uid = 0
         self.cancelled_uids = set()
@@ -201,6 +205,20 @@ class RealRun:
                     evs = [run.mk(em, fuel - 1, now) for em in beh["imm"]]
                     for h in beh.get("cancel", []):
                         run.cancel(h)
+                    if beh.get("flush"):
+                        for held in run.stash.pop(self.idx, []):
+                            hc = held.context
+                            f = hc.get("fuel", 0) - 1
+                            if f < 0:
+                                continue
+                            run.uid += 1
+                            hc["uid"], hc["fuel"] = run.uid, f
+                            hc["metadata"] = {"uid": run.uid, "fuel": f}
+                            held.time = run.Instant(now)       # same object, same creation index, new timestamp
+                            run.born[run.uid] = (now, now)
+                            evs.append(held)
+                    if beh.get("stash"):
+                        run.stash.setdefault(self.idx, []).append(event)
                     shape = beh.get("shape", "list")
                     if shape == "none":
                         return None
